@@ -10,6 +10,7 @@ import (
 	"io"
 	"math"
 	"math/rand"
+	"time"
 
 	"go.uber.org/thriftrw/protocol/binary"
 	"go.uber.org/thriftrw/wire"
@@ -134,14 +135,17 @@ func randValue(r *rand.Rand, t wire.Type, depth int) wire.Value {
 
 var policies = []string{"all", "one", "zero", "rand"}
 
+// safely runs f under the watchdog, converting a panic into its message.
 func safely(f func()) (panicked string) {
-	defer func() {
-		if r := recover(); r != nil {
-			panicked = fmt.Sprint(r)
-		}
-	}()
-	f()
-	return ""
+	watchdog(20*time.Second, func() {
+		defer func() {
+			if r := recover(); r != nil {
+				panicked = fmt.Sprint(r)
+			}
+		}()
+		f()
+	})
+	return panicked
 }
 
 func c02Observe(id string, src string, v wire.Value, calls []sx.Call, seed int64) wj.J {
@@ -195,24 +199,98 @@ func c02Observe(id string, src string, v wire.Value, calls []sx.Call, seed int64
 	return o
 }
 
-// big binaries: judged by header + digest
-func c02Big(id string, n int, r *rand.Rand) wj.J {
-	b := make([]byte, n)
-	r.Read(b)
-	h := sha256.Sum256(b)
-	v := wire.NewValueStruct(wire.Struct{Fields: []wire.Field{{ID: 7, Value: wire.NewValueBinary(b)}}})
-	o := wj.J{"op": "c02big", "id": id, "len": n, "sha": hex.EncodeToString(h[:]), "panic": ""}
+// big binaries: judged by header + digest.  shape "struct": fields 7, 8, ... each a
+// binary; shape "list": list<binary>.  Several large parts with different contents
+// make a reader that reuses a buffer for large payloads visible.
+func c02Big(id string, shape string, sizes []int, r *rand.Rand) wj.J {
 	sum := func(x []byte) string { s := sha256.Sum256(x); return hex.EncodeToString(s[:]) }
-	split := func(enc []byte) wj.J {
-		// head = 3 bytes field header + 4 bytes length; tail = 1 stop byte
-		if len(enc) < 8 {
-			return wj.J{"head": wj.Bytes(enc), "bodysha": "", "bodylen": 0, "tail": []int{}}
-		}
-		return wj.J{"head": wj.Bytes(enc[:7]), "bodysha": sum(enc[7 : len(enc)-1]), "bodylen": len(enc) - 8, "tail": wj.Bytes(enc[len(enc)-1:])}
+	var parts []wj.J
+	var bins [][]byte
+	for _, n := range sizes {
+		b := make([]byte, n)
+		r.Read(b)
+		bins = append(bins, b)
+		parts = append(parts, wj.J{"len": n, "sha": sum(b)})
 	}
-	o["enc"], o["sw"] = split(nil), split(nil)
+	var v wire.Value
+	if shape == "list" {
+		es := make([]wire.Value, len(bins))
+		for i, b := range bins {
+			es[i] = wire.NewValueBinary(b)
+		}
+		v = wire.NewValueList(wire.ValueListFromSlice(wire.TBinary, es))
+	} else {
+		var fs []wire.Field
+		for i, b := range bins {
+			fs = append(fs, wire.Field{ID: int16(7 + i), Value: wire.NewValueBinary(b)})
+		}
+		v = wire.NewValueStruct(wire.Struct{Fields: fs})
+	}
+	o := wj.J{"op": "c02big", "id": id, "shape": shape, "parts": parts, "panic": ""}
+	// split an encoding into per-part (head, body digest) pieces plus the tail
+	split := func(enc []byte) wj.J {
+		res := wj.J{"pre": []int{}, "parts": []wj.J{}, "tail": []int{}, "wellformed": false}
+		pos := 0
+		if shape == "list" {
+			if len(enc) < 5 {
+				return res
+			}
+			res["pre"] = wj.Bytes(enc[:5])
+			pos = 5
+		}
+		var ps []wj.J
+		for range sizes {
+			hl := 4
+			if shape != "list" {
+				hl = 7
+			}
+			if pos+hl > len(enc) {
+				return res
+			}
+			n := int(uint32(enc[pos+hl-4])<<24 | uint32(enc[pos+hl-3])<<16 | uint32(enc[pos+hl-2])<<8 | uint32(enc[pos+hl-1]))
+			if n < 0 || pos+hl+n > len(enc) {
+				return res
+			}
+			ps = append(ps, wj.J{"head": wj.Bytes(enc[pos : pos+hl]), "bodylen": n, "bodysha": sum(enc[pos+hl : pos+hl+n])})
+			pos += hl + n
+		}
+		res["parts"], res["tail"], res["wellformed"] = ps, wj.Bytes(enc[pos:]), true
+		return res
+	}
+	digestParts := func(v wire.Value, err error) wj.J {
+		res := wj.J{"ec": errClass(err), "parts": []wj.J{}}
+		if err != nil {
+			return res
+		}
+		var ps []wj.J
+		add := func(id int, b []byte) { ps = append(ps, wj.J{"id": id, "len": len(b), "sha": sum(b)}) }
+		switch v.Type() {
+		case wire.TStruct:
+			for _, f := range v.GetStruct().Fields {
+				if f.Value.Type() == wire.TBinary {
+					add(int(f.ID), f.Value.GetBinary())
+				}
+			}
+		case wire.TList:
+			i := 0
+			ferr := v.GetList().ForEach(func(e wire.Value) error {
+				if e.Type() == wire.TBinary {
+					add(i, e.GetBinary())
+				}
+				i++
+				return nil
+			})
+			res["ec"] = errClass(ferr)
+		}
+		if ps != nil {
+			res["parts"] = ps
+		}
+		return res
+	}
+	empty := wj.J{"pre": []int{}, "parts": []wj.J{}, "tail": []int{}, "wellformed": false}
+	o["enc"], o["sw"] = empty, empty
 	o["encerr"], o["swerr"] = "unset", "unset"
-	o["dec"] = wj.J{"ec": "unset", "id": 0, "len": 0, "sha": ""}
+	o["dec"] = wj.J{"ec": "unset", "parts": []wj.J{}}
 	o["sdec"] = o["dec"]
 	o["panic"] = safely(func() {
 		var buf bytes.Buffer
@@ -225,18 +303,16 @@ func c02Big(id string, n int, r *rand.Rand) wj.J {
 		w.Close()
 		o["sw"] = split(sbuf.Bytes())
 		o["swerr"] = errClass(err)
-		digest := func(v wire.Value, err error) wj.J {
-			if err != nil || v.Type() != wire.TStruct || len(v.GetStruct().Fields) != 1 || v.GetStruct().Fields[0].Value.Type() != wire.TBinary {
-				return wj.J{"ec": errClass(err), "id": 0, "len": 0, "sha": ""}
-			}
-			f := v.GetStruct().Fields[0]
-			return wj.J{"ec": "none", "id": int(f.ID), "len": len(f.Value.GetBinary()), "sha": sum(f.Value.GetBinary())}
-		}
 		enc := buf.Bytes()
-		o["dec"] = digest(binary.Default.Decode(bytes.NewReader(enc), wire.TStruct))
-		ch := sx.NewChunked(enc, "rand", int64(n))
+		// decode, then read every part only after the whole value has been decoded
+		dv, derr := binary.Default.Decode(bytes.NewReader(enc), v.Type())
+		if derr == nil {
+			dv, derr = wj.Force(dv)
+		}
+		o["dec"] = digestParts(dv, derr)
+		ch := sx.NewChunked(enc, "rand", int64(len(enc)))
 		rd := binary.Default.Reader(ch)
-		o["sdec"] = digest(sx.ReadValue(rd, wire.TStruct))
+		o["sdec"] = digestParts(sx.ReadValue(rd, v.Type()))
 		rd.Close()
 	})
 	return o
@@ -283,7 +359,18 @@ func cmdC02(args []string) error {
 	}
 	sizes := []int{1048575, 1048576, 1048577, 1048576 + 4096, 2*1048576 + 1, 5000, 70000}
 	for i := 0; i < *big; i++ {
-		if err := out.write(c02Big(fmt.Sprintf("b%d", i), sizes[i%len(sizes)]+(i/len(sizes))*17, r)); err != nil {
+		n := sizes[i%len(sizes)] + (i/len(sizes))*17
+		shape := []string{"struct", "list"}[i%2]
+		var ss []int
+		switch i % 3 {
+		case 0:
+			ss = []int{n}
+		case 1:
+			ss = []int{n, sizes[(i+1)%len(sizes)]}
+		default:
+			ss = []int{1048577 + i, n, 1048600}
+		}
+		if err := out.write(c02Big(fmt.Sprintf("b%d", i), shape, ss, r)); err != nil {
 			return err
 		}
 	}
